@@ -182,6 +182,8 @@ def _exact_log(x):
             if fr.numerator / fr.denominator == fx:
                 return LogVal.log_of(fr)  # the double is the quotient of two small integers (e.g. n_finite / n_total)
             return LogVal.log_of(Fraction(fx))
+        if fx == 0.0:
+            return float("-inf")  # numpy: log(0) = -inf (with a warning), no exception
         raise HarnessError(f"log({fx})")
     if isinstance(x, Fraction):
         return LogVal.log_of(x)
